@@ -554,6 +554,9 @@ def hof_models(I, st, caller, func, args, argtys, dest_ty):
                 outs.append(Outcome("return", EnumV(kind, idx, {idx: (r,)}), o.state))
             elif op in ("is_some_and", "is_ok_and", "is_none_or"):
                 outs.append(Outcome("return", r, o.state))
+            elif op == "filter":
+                keep = z3.simplify(r) if z3.is_expr(r) else z3.BoolVal(bool(r))
+                outs.append(Outcome("return", EnumV("Option", 1 if z3.is_true(keep) else 0 if z3.is_false(keep) else z3.If(keep, 1, 0), {1: (payload[0],)}), o.state))
             elif op == "map_err":
                 outs.append(Outcome("return", EnumV("Result", 1, {1: (r,)}), o.state))
             else:
